@@ -22,14 +22,20 @@ use std::{
     task::{Context, Poll, Waker},
 };
 
-#[derive(Debug, Clone)]
-pub struct VErr(pub String);
-impl fmt::Display for VErr {
-    fn fmt(&self, f: &mut fmt::Formatter<'_>) -> fmt::Result {
-        write!(f, "verr:{}", self.0)
-    }
+/// The failures the instrumented transport injects are ordinary `io::Error`s, as a socket transport would produce them; the
+/// kind depends on the failing operation (what tarpc must do with a transport failure does not depend on its kind).
+pub type VErr = std::io::Error;
+fn verr(op: &str) -> VErr {
+    let kind = match op {
+        "next" => std::io::ErrorKind::ConnectionReset,
+        "ready" => std::io::ErrorKind::BrokenPipe,
+        "send" => std::io::ErrorKind::ConnectionAborted,
+        "flush" => std::io::ErrorKind::UnexpectedEof,
+        "close" => std::io::ErrorKind::NotConnected,
+        _ => std::io::ErrorKind::Other,
+    };
+    std::io::Error::new(kind, format!("verr:{}", op))
 }
-impl std::error::Error for VErr {}
 
 #[derive(Clone, Copy, PartialEq, Eq, Debug)]
 pub enum Mode {
@@ -192,7 +198,7 @@ impl<SI, I> Stream for VTransport<SI, I> {
             s.failed = true;
             s.log("next", "err", json!({}));
             emit("Fault", json!({"ep": s.ep, "op": "next", "kind": "", "c": -1}));
-            return Poll::Ready(Some(Err(VErr("next".into()))));
+            return Poll::Ready(Some(Err(verr("next"))));
         }
         if let Some(item) = s.inq.pop_front() {
             let d = (s.describe_in)(&item);
@@ -220,7 +226,7 @@ impl<SI, I> Sink<SI> for VTransport<SI, I> {
             s.failed = true;
             s.log("ready", "err", json!({}));
             emit("Fault", json!({"ep": s.ep, "op": "ready", "kind": "", "c": -1}));
-            return Poll::Ready(Err(VErr("ready".into())));
+            return Poll::Ready(Err(verr("ready")));
         }
         let ok = match s.mode {
             Mode::Always => true,
@@ -244,7 +250,7 @@ impl<SI, I> Sink<SI> for VTransport<SI, I> {
             // A failed start_send of one item is not a failure of the connection.
             s.log("send", "err", json!({"item": d}));
             emit("Fault", json!({"ep": s.ep, "op": "send", "kind": d.get("kind").cloned().unwrap_or(json!("")), "c": d.get("c").cloned().unwrap_or(json!(-1)), "item": d}));
-            return Err(VErr("send".into()));
+            return Err(verr("send"));
         }
         // a sink that was not ready cannot take the item (as a bounded queue or a full socket buffer would)
         let room = match s.mode {
@@ -255,7 +261,7 @@ impl<SI, I> Sink<SI> for VTransport<SI, I> {
         if !room {
             s.log("send", "full", json!({"item": d}));
             emit("SendRefused", json!({"ep": s.ep, "item": d}));
-            return Err(VErr("full".into()));
+            return Err(verr("full"));
         }
         if s.mode == Mode::Independent && s.credits > 0 {
             s.credits -= 1;
@@ -272,7 +278,7 @@ impl<SI, I> Sink<SI> for VTransport<SI, I> {
             s.failed = true;
             s.log("flush", "err", json!({}));
             emit("Fault", json!({"ep": s.ep, "op": "flush", "kind": "", "c": -1}));
-            return Poll::Ready(Err(VErr("flush".into())));
+            return Poll::Ready(Err(verr("flush")));
         }
         let can = match s.mode {
             Mode::Always | Mode::Independent => true,
@@ -304,7 +310,7 @@ impl<SI, I> Sink<SI> for VTransport<SI, I> {
             s.failed = true;
             s.log("close", "err", json!({}));
             emit("Fault", json!({"ep": s.ep, "op": "close", "kind": "", "c": -1}));
-            return Poll::Ready(Err(VErr("close".into())));
+            return Poll::Ready(Err(verr("close")));
         }
         let can = match s.mode {
             Mode::Always | Mode::Independent => true,
